@@ -1,3 +1,5 @@
+import RossModel.Lemmas.FrameWF
+import RossModel.Lemmas.Cobs
 import RossModel.Lemmas.Usart
 /-!
 # C09 — USART frame codec follows the byte layout, round-trips, emits no delimiter byte
@@ -33,5 +35,24 @@ theorem C09_toUsart_transparent (f : Frame) (h : f.WF) :
 theorem C09_fromUsart_toUsart (f : Frame) (h : f.WF) :
     fromUsart (Cobs.encode (usartBody f)) = .ok (normKind f) :=
   Ross.fromUsart_toUsart f h
+
+/-- the COBS layer round-trips every body the encoder can be given (1..=253 bytes; frames are 5..=13) -/
+theorem C09_decodeBody_encode (xs : List UInt8) (hne : xs ≠ []) (hlen : xs.length < 254) :
+    Cobs.decodeBody (Cobs.encode xs) = some xs :=
+  Cobs.decodeBody_encode xs hne hlen
+
+/-- decoding any byte string: a COBS error, a size error, or — exactly when the decoded body has a 5-byte header
+whose length byte is at most 8 and equals the number of bytes that follow — the frame unpacked from it; in particular a
+body whose size disagrees with its declared data length is rejected -/
+theorem C09_fromUsart_cases (enc : List UInt8) :
+    fromUsart enc = .err .cobsError ∨ fromUsart enc = .err .wrongSize ∨
+    ∃ fr c0 c1 c2 c3 c4 rest, Cobs.decodeBody enc = some fr ∧ fr = c0 :: c1 :: c2 :: c3 :: c4 :: rest ∧
+      rest.length = c4.toNat ∧ c4.toNat ≤ 8 ∧ fromUsart enc = .ok (unpack c0 c1 c2 c3 c4 rest) :=
+  Ross.fromUsart_cases enc
+
+/-- non-vacuity: the repository's own test vector -/
+example : fromUsart [0x0e, 0xa5, 0x55, 0x55, 0x55, 0x08, 0x55, 0x55, 0x55, 0x55, 0x55, 0x55, 0x55, 0x55] =
+    .ok { notError := true, start := false, multi := true, idLast := false, fid := 0x555, addr := 0x5555, dataLen := 8,
+          data := [0x55, 0x55, 0x55, 0x55, 0x55, 0x55, 0x55, 0x55] } := by decide
 
 end Ross.Props
